@@ -834,6 +834,31 @@ Section CINV.
 End CINV.
 
 (* ------------------------------------------------------------------ actor scripts of C12 *)
+(* iteration constructs: `for job in project` / `for job in project.find_jobs()` (the same calls), and
+   `for key, group in project.groupby(key): for job in group` (the state points of all jobs are read first, the
+   jobs that have the key come sorted by its value) *)
+Inductive ikind := IAll | IFind | IGroup (key : str).
+(* the loop body: job.doc[k] = v, or job.doc() (collected) *)
+Inductive ibody := BSet (k : str) (v : json) | BRead.
+
+Definition obj_get (k : str) (v : json) : option json :=
+  match v with
+  | JObj kvs => (fix go (l : list (str * json)) : option json :=
+                   match l with [] => None | (k', x) :: l' => if str_eqb k k' then Some x else go l' end) kvs
+  | _ => None
+  end.
+
+Definition key_le (a b : json) : bool :=
+  match a, b with JInt x, JInt y => Z.leb x y | _, _ => true end.
+
+(* stable insertion sort by key value *)
+Fixpoint ins_key (x : str * json) (l : list (str * json)) : list (str * json) :=
+  match l with
+  | [] => [x]
+  | y :: l' => if key_le (snd y) (snd x) then y :: ins_key x l' else x :: l
+  end.
+Definition sort_key (l : list (str * json)) : list (str * json) := fold_left (fun acc x => ins_key x acc) l [].
+
 Inductive act :=
 | AProject                                   (* signac.Project(root)                               *)
 | AInit (sp : json)                          (* project.open_job(sp).init()                        *)
@@ -842,9 +867,11 @@ Inductive act :=
 | ALen                                       (* len(project)                                       *)
 | APDocSet (k : str) (v : json)              (* project.doc[k] = v                                 *)
 | APDocRead                                  (* project.doc()                                      *)
+| AEach (ik : ikind) (b : ibody)             (* an iteration construct with a document operation in its body       *)
+| AWithInit (outer inner : json)             (* with project.open_job(outer): project.open_job(inner).init()        *)
 | ARmWs.                                     (* outside the property's alphabet: os.rmdir(workspace), errors ignored *)
 
-Inductive aobs := OUnit | ODoc (j : json) | ONum (n : nat).
+Inductive aobs := OUnit | ODoc (j : json) | ONum (n : nat) | ODocs (l : list json).
 
 (* the project document lives next to the workspace directory *)
 (* "signac_project_document.json" *)
@@ -894,6 +921,64 @@ Section ACTORS.
                        (fun rs => match rs with inl _ => k OUnit | inr e => Raise e end)
           end)
     | APDocRead => doc_load pdocfile (fun rd => match rd with inl d => k (ODoc d) | inr e => Raise e end)
+    | AEach ik body =>
+        Do (CListdir ws) (fun rl =>
+          match rl with
+          | FOk (RNames names) =>
+              let ids := filter id_match names in
+              (* the loop over the jobs, in the given order: the handles come from the listing, so the
+                 document is accessed without init() *)
+              let each :=
+                (fix each (l : list str) (acc : list json) {struct l} : prog A :=
+                   match l with
+                   | [] => match body with BRead => k (ODocs (rev acc)) | BSet _ _ => k OUnit end
+                   | i :: l' =>
+                       let file := ws ++ [i; DOCF] in
+                       doc_load file (fun rd =>
+                         match rd with
+                         | inr e => Raise e
+                         | inl d =>
+                             match body with
+                             | BRead => each l' (d :: acc)
+                             | BSet key v =>
+                                 doc_store frepr tag file (doc_set d key v)
+                                   (fun rs => match rs with inl _ => each l' acc | inr e => Raise e end)
+                             end
+                         end)
+                   end) in
+              match ik with
+              | IAll | IFind => each ids []
+              | IGroup key =>
+                  (* the index: every state point is read, in listing order *)
+                  (fix sps (l : list str) (acc : list (str * json)) {struct l} : prog A :=
+                     match l with
+                     | [] => each (map fst (sort_key (rev acc))) []
+                     | i :: l' =>
+                         Do (CRead (ws ++ [i; SPF])) (fun r =>
+                           match r with
+                           | FOk (RData d) =>
+                               match c_json d with
+                               | Some v => match obj_get key v with
+                                           | Some x => sps l' ((i, x) :: acc)
+                                           | None => sps l' acc
+                                           end
+                               | None => Raise (PExn EJobsCorrupted)
+                               end
+                           | FOk _ => Raise (PExn EOther)
+                           | FErr _ => Raise (PExn EJobsCorrupted)
+                           end)
+                     end) ids []
+              end
+          | FOk _ => Raise (PExn EOther)
+          | FErr _ => Raise (PExn EOther)
+          end)
+    | AWithInit outer inner =>
+        (* Job.open(): init() of the entered job (fast path: the directory exists), chdir; then the body *)
+        doc_access frepr atomic tag ws outer (fun r =>
+          match r with
+          | inr e => Raise e
+          | inl _ => job_init frepr atomic tag ws inner false (fun r1 => match r1 with inl _ => k OUnit | inr e => Raise e end)
+          end)
     | ARmWs => Do (CRmdir ws) (fun _ => k OUnit)
     end.
 
